@@ -39,7 +39,7 @@ RECURSIVE StrR(_)
 StrR(s) == IF s = <<>> THEN "" ELSE s[1] \o StrR(Tail(s))
 Row(p) == LET r == Decode(syms, p[1], p[2], p[3], p[4], p[5])  o == Order(r, p[2])  o2 == OrderPD(r, p[2]) IN
           [s |-> StrR(syms), nv |-> p[1], nf |-> p[2], nss |-> p[3], ev |-> p[4], sb |-> p[5], out |-> r.out, np |-> r.np, faces |-> r.faces,
-           trav |-> o.trav, vidx |-> o.vidx, trav2 |-> o2.trav, vidx2 |-> o2.vidx, ppos |-> IF p[2] <= 6 THEN ParaPos(r, p[2], -50, 50) ELSE <<>>,
+           trav |-> o.trav, vidx |-> o.vidx, trav2 |-> o2.trav, vidx2 |-> o2.vidx, ppos |-> IF p[2] <= 6 THEN ParaPos(r, p[2], -50, 50) ELSE <<>>, mpos |-> IF p[2] <= 6 THEN MpPos(r, p[2], -50, 50) ELSE <<>>,
            cm |-> IF p[2] <= 6 /\ r.out = "acc" /\ o.trav = "" THEN [pat \in 1..3 |-> CmPos(r, p[2], pat - 1, -50, 50)] ELSE <<>>,
            sm |-> IF p[2] <= 6 /\ r.out = "acc" /\ o.trav = "" THEN [k \in 1..Len(SeamPats) |-> [Seamed(r, p[2], SeamPats[k]) EXCEPT !.used = @] @@ [bits |-> SeamPats[k]]] ELSE <<>>,
            sm2 |-> IF p[2] <= 6 /\ r.out = "acc" /\ o.trav = "" THEN [k \in 1..Len(SeamPairs) |-> Seamed2(r, p[2], SeamPats[SeamPairs[k][1]], SeamPats[SeamPairs[k][2]]) @@ [b1 |-> SeamPats[SeamPairs[k][1]], b2 |-> SeamPats[SeamPairs[k][2]]]] ELSE <<>>]
